@@ -78,6 +78,24 @@ pub fn run(seed: u64, n: usize, out: &mut dyn Write) {
     let terms: Vec<&[u8]> = vec![b"\n", b"\n", b"\n", b"\n", b"\r\n", b"\r\n", b""];
     let mut made = 0;
     let mut dict_cache: Option<(crate::gen::DictSrc, GenCfg)> = None;
+    // pinned: tokens whose surface / feature is 65536 bytes or longer (the tokenizer makes such tokens from a long run of
+    // one groupable category): lengths are not 16-bit quantities
+    let long: [(String, String); 3] = [
+        ("a".repeat(65536), "N,x".to_string()),
+        ("あ".repeat(23334), "記号".to_string()),
+        ("b".to_string(), "f".repeat(65537)),
+    ];
+    for (k, (s, f)) in long.iter().enumerate() {
+        if k >= n {
+            break;
+        }
+        let input = format!("x\ty\nEOS\n{s}\t{f}\nEOS\n").into_bytes();
+        let expect = vec![vec![("x".to_string(), "y".to_string())], vec![(s.clone(), f.clone())]];
+        let (o, rt) = obs(&input);
+        let want = expected_obs(&expect);
+        let exp = o.split(" REWRITE ").next() == Some(want.as_str());
+        writeln!(out, "corpus {seed}.long{k} parse {} IMPL {o} ## RT={rt} KIND=examples EXP={} EXPECT={}", hex(&input), exp as u8, hex(want.as_bytes())).unwrap();
+    }
     while made < n {
         let id = format!("{seed}.{made}");
         match rng.below(10) {
